@@ -528,7 +528,20 @@ def _process_internal_events_without_default_matchers(
                     event.arguments["source_flow_instance_uid"]
                 ].flow_id
             )
-            if started_instance and not is_activated_child_flow:
+            source_flow_state = state.flow_states[
+                event.arguments["source_flow_instance_uid"]
+            ]
+            is_restart = is_activated_child_flow and bool(
+                event.arguments.get("activated", None)
+            )
+            if (_is_done_flow(source_flow_state) and not is_restart) or (
+                is_restart and source_flow_state.activated == 0
+            ):
+                # The flow that requested the start has finished or failed in the meantime (or, for the
+                # restart of an activated flow, has been deactivated): starting the flow now would create
+                # an orphan that nobody will ever stop
+                handled_event_loops.add("all_loops")
+            elif started_instance and not is_activated_child_flow:
                 # Activate a flow that already has been activated
 
                 started_instance.activated = started_instance.activated + 1
